@@ -628,6 +628,40 @@ def glued_graph(rng, pieces=None):
     return n, E
 
 
+def polygon_hub_graph(rng):
+    """a long polygon (6..12 edges) with 2..4 pieces glued onto distinct polygon edges (the marker edge deleted or kept): the
+    decomposition has a large series member with several children, so that added columns run through two or more consecutive
+    series edges between two children (the root-series cases of the column-addition algorithm)"""
+    r = 6 + rng.below(7)
+    n = r
+    E = [(i, (i + 1) % r) for i in range(r)]
+    hubs = rng.shuffle(list(range(r)))[:2 + rng.below(3)]
+    for h in hubs:
+        a, b = h, (h + 1) % r
+        n2, E2 = _piece(rng)
+        c, d = rng.choice(E2)
+        if rng.below(2):
+            c, d = d, c
+        ren, nxt = {}, n
+        for v in range(n2):
+            if v == c:
+                ren[v] = a
+            elif v == d:
+                ren[v] = b
+            else:
+                ren[v] = nxt
+                nxt += 1
+        n = nxt
+        if rng.below(3) != 0 and (a, b) in E:
+            E.remove((a, b))
+        E += [(ren[u], ren[v]) for (u, v) in E2 if {u, v} != {c, d}]
+    for _ in range(rng.below(3)):           # a few chords / extra edges between existing nodes
+        u, v = rng.below(n), rng.below(n)
+        if u != v:
+            E.append((u, v))
+    return n, E
+
+
 # ---------------------------------------------------------------------------------------------------------------
 # 3-connectivity of the matroid represented by [I | M] over GF(p): no partition of the elements (rows and columns) into
 # two parts with at least 2 elements each (1-separation: at least 1) whose connecting ranks sum to less than 2.
